@@ -17,14 +17,35 @@ func runC18(c *Ctx) error {
 	}
 	c.Sum.Rule = "MaskXOR on arr[off:off+len] for every len 0..maxLen, offsets 0..8 (rotating), keys {0, ff.., random}; non-trivial = len>0 and key!=0; distinct by (key,arr,off,len)"
 	keys := [][]byte{{0, 0, 0, 0}, {255, 255, 255, 255}, {1, 2, 3, 4}}
+	lens := []int{}
 	for n := 0; n <= maxLen; n++ {
+		lens = append(lens, n)
+	}
+	// large buffers: every power of two up to 1 MiB (4 MiB thorough) +- small residues, plus random sizes
+	top := 20
+	if !c.quick() {
+		top = 22
+	}
+	for e := 9; e <= top; e++ {
+		lens = append(lens, 1<<e-1-c.Rng.Intn(7), 1<<e, 1<<e+1+c.Rng.Intn(70))
+	}
+	for i := 0; i < 6; i++ {
+		lens = append(lens, 1000+c.Rng.Intn(300000))
+	}
+	for _, n := range lens {
 		offs := []int{n % 9, (n*5 + 3) % 9}
-		if !c.quick() {
+		if n > maxLen {
+			offs = []int{c.Rng.Intn(9)}
+		}
+		if !c.quick() && n <= maxLen {
 			offs = []int{0, 1, 2, 3, 4, 5, 6, 7, 8}
 		}
 		for _, off := range offs {
 			ks := append([][]byte{}, keys...)
 			ks = append(ks, randBytes(c.Rng, 4))
+			if n > maxLen {
+				ks = ks[2:]
+			}
 			for _, key := range ks {
 				guard := 9
 				arr := randBytes(c.Rng, off+n+guard)
@@ -70,7 +91,11 @@ func lenClass(n int) string {
 		return "8-63"
 	case n < 128:
 		return "64-127"
+	case n < 4096:
+		return "128-4095"
+	case n < 65536:
+		return "4096-65535"
 	default:
-		return ">=128"
+		return ">=65536"
 	}
 }
